@@ -77,3 +77,14 @@ claim("C05", "other",
       "by its own clause.",
       TB + "numpy nansum / cov external; the cross-check bound: 4-11 windows x 20-50 samples, up to 6 history steps per object.",
       "contract-based deductive verification of the distribution-dependent formulas + native evaluation of the estimator contracts over mask histories", "DESIGN.md 5/C05")
+
+claim("C11", "other",
+      "Proof: HvsrAzimuthal._compute_statistical_weights returns, in azimuth-major order, the weight 1/(A n_a) for each of the n_a accepted "
+      "windows of azimuth a, for any number of azimuths and windows (loop invariant over ghost prefix sums OFF(a); np.sum of a mask is the "
+      "ghost count of the object); the algebraic steps 'n_a weights of 1/(A n_a) sum to 1/A' and 'A = 1 gives the n-1 denominator'. "
+      "Cross-check / bounded (labelled): every azimuthal statistic (means, Cheng standard deviations with 1 - sum w^2, weighted covariance "
+      "and its diagonal = std^2, mean / std / nth-std curves, per-azimuth mean curves, mean-curve peak) against independent weighted "
+      "estimators over mask histories incl. redistributing accepted windows between azimuths, azimuth-order independence, single-azimuth "
+      "= traditional, equal counts = pooled unweighted. Known finding F-9 reported by its own clause.",
+      TB + "np.cov(aweights=) external; A-PERM (order independence is sampled, not proved).",
+      "contract-based deductive verification of the weight construction (loop invariant over ghost prefix sums) + native evaluation of the weighted-estimator contracts", "DESIGN.md 5/C11")
